@@ -6,6 +6,7 @@ import (
 	"fmt"
 	"math"
 	"math/rand"
+	"os"
 	"strings"
 
 	sdk "github.com/cosmos/cosmos-sdk/types"
@@ -26,14 +27,16 @@ import (
 // BeginBlock / EndBlock / Commit. Every scenario is a fresh chain. It records, per transaction, the result
 // code, gas and a digest of the emitted events, and per block the panic flag and the app hash.
 type chainFam struct {
-	c      *chain.Chain
-	rng    *rand.Rand
-	labels []string
-	script []sdk.Msg
-	files  []*tfile
-	halted bool
-	dead   string // non-empty: the application panicked while starting (InitChain / first block)
-	types  []string
+	c       *chain.Chain
+	rng     *rand.Rand
+	labels  []string
+	script  []sdk.Msg
+	files   []*tfile
+	halted  bool
+	simNode bool       // VH_SIMULATE=1: this execution also simulates foreign transactions (second node of the C06 pair)
+	simRng  *rand.Rand // generator of the simulated transactions (separate from the history's)
+	dead    string     // non-empty: the application panicked while starting (InitChain / first block)
+	types   []string
 	// ledger mode (spec/Ledger.tla): project class balances and obligations after every step
 	ledger  bool
 	lgAddr  map[string]string
@@ -53,6 +56,8 @@ func (f *chainFam) Setup(cfg M, rng *rand.Rand) {
 	f.rng = rng
 	f.labels = []string{"a", "b", "c", "p1", "p2", "p3", "p4"}
 	f.ledger = getb(cfg, "ledger")
+	f.simNode = os.Getenv("VH_SIMULATE") == "1"
+	f.simRng = rand.New(rand.NewSource(7))
 }
 
 func smallParams(gs app.GenesisState, a *app.JackalApp) {
@@ -200,6 +205,11 @@ func (f *chainFam) signerOf(m sdk.Msg) *chain.Acct {
 	return nil
 }
 
+func (f *chainFam) signerOf2(m sdk.Msg) (a *chain.Acct) {
+	defer func() { recover() }()
+	return f.signerOf(m)
+}
+
 func (f *chainFam) deliver(m sdk.Msg) M {
 	var signer *chain.Acct
 	func() {
@@ -218,6 +228,20 @@ func (f *chainFam) deliver(m sdk.Msg) M {
 		return m.ValidateBasic() != nil
 	}() {
 		return nil
+	}
+	if f.simNode {
+		// this node also serves simulation requests: before every delivered transaction it simulates another plausible one
+		// (drawn from a generator of its own, so that the delivered history is the same on both nodes). Simulation runs on a
+		// throw-away branch of the state and must leave no trace.
+		save, nreg := f.rng, f.nreg
+		f.rng = f.simRng
+		m2 := f.flow()
+		f.rng, f.nreg = save, nreg
+		if s2 := f.signerOf2(m2); s2 != nil {
+			f.c.SimulateOnly = true
+			f.c.Deliver([]sdk.Msg{m2}, s2)
+			f.c.SimulateOnly = false
+		}
 	}
 	r := f.c.Deliver([]sdk.Msg{m}, signer)
 	ms := fmt.Sprint(m)
@@ -251,7 +275,9 @@ func (f *chainFam) flow() sdk.Msg {
 	coin := func() sdk.Coin {
 		return sdk.NewInt64Coin(pick("ujkl", "ujkl", "uusd"), []int64{1, 55, 1000, 12345, 400_000}[r.Intn(5)])
 	}
-	switch r.Intn(12) {
+	switch r.Intn(13) {
+	case 12:
+		return &otypes.MsgUpdateFeed{Creator: f.c.Acct("a").S(), Name: "jklprice", Data: fmt.Sprintf(`{"price":"%s","24h_change":"0"}`, pick("0.25", "0.5", "0.125", "1.0"))}
 	case 0, 1:
 		return &rtypes.MsgBid{Creator: who("a", "b", "c", "p1"), Name: pick(names...), Bid: coin()}
 	case 2:
@@ -276,7 +302,15 @@ func (f *chainFam) flow() sdk.Msg {
 		m := &stypes.MsgBuyStorage{Creator: who("a", "b", "c"), ForAddress: who("a", "b", "c"), DurationDays: []int64{30, 60, 366, 720}[r.Intn(4)],
 			Bytes: []int64{1_000_000_000, 3_000_000_000, 6_000_000_000}[r.Intn(3)], PaymentDenom: "ujkl"}
 		if r.Intn(2) == 0 {
-			m.Referral = pick(f.c.Acct("a").S(), f.c.Acct("p1").S(), "alpha.jkl", "beta.jkl")
+			refs := []string{f.c.Acct("a").S(), f.c.Acct("p1").S(), "alpha.jkl", "beta.jkl"}
+			// any bech32 address is accepted as referral: also the escrow account of a live gauge
+			for _, g := range f.c.App.StorageKeeper.GetAllPaymentGauges(f.c.Ctx) {
+				if a, err := stypes.GetGaugeAccount(g); err == nil {
+					refs = append(refs, a.String())
+					break
+				}
+			}
+			m.Referral = pick(refs...)
 		}
 		return m
 	default:
@@ -462,6 +496,8 @@ func (f *chainFam) Random(rng *rand.Rand) M {
 		return M{"a": "block"}
 	}
 	switch r := rng.Intn(100); {
+	case r < 8:
+		return M{"a": "flow"} // plausible token-moving messages (also used by the ledger family)
 	case r < 45:
 		return M{"a": "adv"}
 	case r < 55:
